@@ -34,6 +34,7 @@ LEVEL_TEXT = ("Exploration by generated programs: (a) well-typed ASTs in several
               "any read of the document (a Mapping spy); (c) all expression trees of depth <= 2 over 19 leaf forms are "
               "classified by the reference checker and compared; (d) index / slice bounds at limit-1, limit, limit+1 "
               "under default and three narrowed configurations, leading zeros, empty and comma-terminated lists.")
+LEVEL_TEXT += ' Also: text-level mutants of rendered queries classified by an independent hand-written RFC 9535 parser + the typing checker: well-formed and well-typed must compile; well-formed but for a listed refusal (leading-zero index, empty / comma-terminated list, out-of-range bound, uncompared literal, typing rule) must be refused at compile time.'
 BUDGET_S = {"quick": 70, "thorough": 500}
 RULE = ("Valid class: FilterGen ASTs (well-typed by construction and confirmed by the reference checker). Invalid class: one "
         "injected fault, confirmed to be the only violation. Non-trivial = an invalid case whose fault is not at the top "
